@@ -50,6 +50,17 @@ func loadIncludeConfig(source any) ([]types.IncludeConfig, error) {
 	return requires, err
 }
 
+// absoluteFrom anchors a relative path of an include entry on the directory of the project being loaded. For a nested
+// include workingDir is relative to the parent project; the local resource loader knows the absolute directory.
+func absoluteFrom(options *Options, workingDir string, p string) string {
+	for _, loader := range options.ResourceLoaders {
+		if local, ok := loader.(localResourceLoader); ok {
+			return local.abs(p)
+		}
+	}
+	return filepath.Join(workingDir, p)
+}
+
 func ApplyInclude(ctx context.Context, workingDir string, environment types.Mapping, model map[string]any, options *Options, included []string) error {
 	includeConfig, err := loadIncludeConfig(model["include"])
 	if err != nil {
@@ -84,7 +95,7 @@ func ApplyInclude(ctx context.Context, workingDir string, environment types.Mapp
 						r.ProjectDirectory = filepath.Dir(path)
 					case !filepath.IsAbs(r.ProjectDirectory):
 						relworkingdir = loader.Dir(r.ProjectDirectory)
-						r.ProjectDirectory = filepath.Join(workingDir, r.ProjectDirectory)
+						r.ProjectDirectory = absoluteFrom(options, workingDir, r.ProjectDirectory)
 
 					default:
 						relworkingdir = r.ProjectDirectory
@@ -119,7 +130,7 @@ func ApplyInclude(ctx context.Context, workingDir string, environment types.Mapp
 			envFile := []string{}
 			for _, f := range r.EnvFile {
 				if !filepath.IsAbs(f) {
-					f = filepath.Join(workingDir, f)
+					f = absoluteFrom(options, workingDir, f)
 					s, err := os.Stat(f)
 					if err != nil {
 						return err
